@@ -1,12 +1,104 @@
-/- Driver ops for the FsRewrite model. Stub until the model lands. -/
+/- Driver ops for the FsRewrite model (C15). -/
 import Lean.Data.Json
 import PypyrModel.Json
+import PypyrModel.FsRewrite
 
 namespace Pypyr.OpFsRewrite
 open Lean (Json)
+open Pypyr.FsRewrite
 
-/-- Handle one request object (already parsed); `Except.error` = protocol-level reject. -/
-def handle (_op : String) (_j : Json) : Except String Json :=
-  .error "not implemented"
+def fsOfJson (j : Json) : Except String Fs := do
+  let arr ← j.getArr?
+  let prs ← arr.toList.mapM fun p => do
+    match p with
+    | .arr #[k, v] => pure ((← k.getStr?), (← v.getStr?))
+    | _ => throw "fs entry must be [name, bytes]"
+  -- names must be unique
+  let names := prs.map (·.1)
+  if names.eraseDups.length != names.length then throw "duplicate names in fs"
+  pure prs
+
+def fsToJson (fs : Fs) : Json :=
+  Json.arr (fs.map fun (k, v) => Json.arr #[Json.str k, Json.str v]).toArray
+
+def strList (j : Json) : Except String (List String) := do
+  (← j.getArr?).toList.mapM Json.getStr?
+
+def jobOfJson (j : Json) : Except String Job := do
+  let src ← (← j.getObjVal? "src").getStr?
+  let out ← match j.getObjVal? "out" with
+    | .ok .null => pure none
+    | .ok o => do pure (some (← o.getStr?))
+    | .error _ => pure none
+  let tmp ← (← j.getObjVal? "tmp").getStr?
+  let chunks ← strList (← j.getObjVal? "chunks")
+  let style ← (← j.getObjVal? "style").getStr?
+  let body ← match style with
+    | "stream" => pure (streamBody 1 chunks)
+    | "object" => pure (objectBody chunks)
+    | s => throw s!"unknown style {s}"
+  pure { src, out, tmp, body }
+
+def faultOfStr : String → Except String Fault
+  | "raise" => pure .raise
+  | "kill" => pure .kill
+  | s => throw s!"unknown fault kind {s}"
+
+/-- plan on the wire: list of `[index, "raise"|"kill"]` (distinct indices). -/
+def planOfJson (j : Json) : Except String Plan := do
+  let entries ← (← j.getArr?).toList.mapM fun p => do
+    match p with
+    | .arr #[i, k] => pure ((← jsonNat? i), (← faultOfStr (← k.getStr?)))
+    | _ => throw "plan entry must be [index, kind]"
+  pure fun i => match entries.find? (·.1 == i) with
+    | some (_, k) => k
+    | none => .none
+
+def outcomeToJson : Outcome → Json
+  | .ok => Json.mkObj [("end", "ok")]
+  | .raised i => Json.mkObj [("end", "raised"), ("at", i)]
+  | .killed i => Json.mkObj [("end", "killed"), ("at", i)]
+
+def endOfStr : String → Except String End
+  | "ok" => pure .ok
+  | "raised" => pure .raised
+  | "killed" => pure .killed
+  | s => throw s!"unknown end {s}"
+
+def verdictToJson (v : Verdict) : Json :=
+  Json.mkObj [("holds", v.holds), ("srcWhole", v.srcWhole), ("okAllNew", v.okAllNew),
+    ("noExtra", v.noExtra), ("noneMissing", v.noneMissing), ("unmatchedSame", v.unmatchedSame)]
+
+/-- ops:
+    `run`   {fs, jobs, plan, cleanup?} → {outcome, final, events, ops, wholeEverywhere}
+    `judge` {before, after, srcs: [[name, newBytes]], end} → verdict of the C15 monitor. -/
+def handle (op : String) (j : Json) : Except String Json := do
+  match op with
+  | "run" =>
+    let fs ← fsOfJson (← j.getObjVal? "fs")
+    let jobs ← (← (← j.getObjVal? "jobs").getArr?).toList.mapM jobOfJson
+    let plan ← planOfJson (← j.getObjVal? "plan")
+    let cleanup ← match j.getObjVal? "cleanup" with
+      | .ok b => b.getBool?
+      | .error _ => pure true
+    for jb in jobs do
+      if fs.contains jb.tmp then throw s!"temp name {jb.tmp} not fresh"
+      if jobs.any (·.src == jb.tmp) then throw s!"temp name {jb.tmp} is a source"
+    let r := runJobs { cleanupWrite := cleanup } plan 0 fs jobs
+    -- the monitor evaluated on every state of the model's own trace (sanity, also proved)
+    let srcs := jobs.map fun jb => (jb.src, newContent jb.body)
+    let whole := r.2.all fun ev => (judge fs ev.2 srcs .killed).srcWhole
+    pure (Json.mkObj [
+      ("outcome", outcomeToJson r.1),
+      ("final", fsToJson (final fs r.2)),
+      ("events", Json.arr (r.2.map fun ev => Json.str ev.1).toArray),
+      ("wholeEverywhere", whole)])
+  | "judge" =>
+    let before ← fsOfJson (← j.getObjVal? "before")
+    let after ← fsOfJson (← j.getObjVal? "after")
+    let srcs ← fsOfJson (← j.getObjVal? "srcs")
+    let e ← endOfStr (← (← j.getObjVal? "end").getStr?)
+    pure (verdictToJson (judge before after srcs e))
+  | _ => .error s!"unknown op {op}"
 
 end Pypyr.OpFsRewrite
